@@ -115,10 +115,21 @@ pub fn gen_case4(prop: &str, seed: u64, thorough: bool, rng: &mut Rng) -> Case {
                     let m = rng.range(1, 4);
                     let mut p = vec![];
                     for _ in 0..m {
-                        if rng.chance(3, 5) {
-                            p.push(ProdOp::Add(g.doc(cfg.nkeys)));
-                        } else {
-                            p.push(ProdOp::DeleteKey(rng.below(cfg.nkeys)));
+                        match rng.weighted(&[45, 30, 25]) {
+                            0 => p.push(ProdOp::Add(g.doc(cfg.nkeys))),
+                            1 => p.push(ProdOp::DeleteKey(rng.below(cfg.nkeys))),
+                            _ => {
+                                let nb = rng.range(0, 3);
+                                let mut b = vec![];
+                                for _ in 0..nb {
+                                    if rng.chance(1, 2) {
+                                        b.push(BatchOp::Add(g.doc(cfg.nkeys)));
+                                    } else {
+                                        b.push(BatchOp::Delete(rng.below(cfg.nkeys)));
+                                    }
+                                }
+                                p.push(ProdOp::Batch(b));
+                            }
                         }
                     }
                     ps.push(p);
@@ -1074,6 +1085,16 @@ fn fork_op(e: &mut Exec, ps: &[Vec<ProdOp>]) {
                             w.delete_term(Term::from_field_u64(fields.key, *k));
                             Ok(())
                         }
+                        ProdOp::Batch(b) => {
+                            let ops: Vec<tantivy::indexer::UserOperation> = b
+                                .iter()
+                                .map(|o| match o {
+                                    BatchOp::Add(d) => tantivy::indexer::UserOperation::Add(d.to_tantivy(&fields)),
+                                    BatchOp::Delete(k) => tantivy::indexer::UserOperation::Delete(Term::from_field_u64(fields.key, *k)),
+                                })
+                                .collect();
+                            w.run(ops).map(|_| ())
+                        }
                     };
                     let i1 = sched::step();
                     if let Err(x) = r {
@@ -1105,8 +1126,18 @@ fn fork_op(e: &mut Exec, ps: &[Vec<ProdOp>]) {
     let recs: Vec<ProdRec> = recs.lock().unwrap().clone();
     e.out.probe("producer_histories");
     for r in &recs {
-        if let ProdOp::Add(d) = &r.op {
-            e.specs.insert(d.uid, d.clone());
+        match &r.op {
+            ProdOp::Add(d) => {
+                e.specs.insert(d.uid, d.clone());
+            }
+            ProdOp::Batch(b) => {
+                for o in b {
+                    if let BatchOp::Add(d) = o {
+                        e.specs.insert(d.uid, d.clone());
+                    }
+                }
+            }
+            _ => {}
         }
     }
     // commit, read back, and look for a linearization that explains what was committed
@@ -1155,7 +1186,7 @@ fn fork_op(e: &mut Exec, ps: &[Vec<ProdOp>]) {
                     "committed uids {:?} are not the effect of any order of the concurrent calls consistent with real time; before: {:?}; calls: {:?}",
                     observed.uids(),
                     model::uids(&base),
-                    h.iter().map(|r| format!("t{}[{}..{}]{}", r.thread, r.invoke, r.ret, match &r.op { ProdOp::Add(d) => format!("Add(uid={},key={})", d.uid, d.key), ProdOp::DeleteKey(k) => format!("Del(key={k})") })).collect::<Vec<_>>()
+                    h.iter().map(|r| format!("t{}[{}..{}]{}", r.thread, r.invoke, r.ret, match &r.op { ProdOp::Add(d) => format!("Add(uid={},key={})", d.uid, d.key), ProdOp::DeleteKey(k) => format!("Del(key={k})"), ProdOp::Batch(b) => format!("Batch{:?}", b.iter().map(|o| match o { BatchOp::Add(d) => format!("Add(uid={},key={})", d.uid, d.key), BatchOp::Delete(k) => format!("Del(key={k})") }).collect::<Vec<_>>()) })).collect::<Vec<_>>()
                 ),
             );
         }
@@ -1208,6 +1239,14 @@ fn linearize(base: &[DocSpec], recs: &[ProdRec], observed: &dump::Dump, f: &Fiel
             match &cand.op {
                 ProdOp::Add(d) => live.push(d.clone()),
                 ProdOp::DeleteKey(k) => live.retain(|d| !DelSpec::Key(*k).matches(d)),
+                ProdOp::Batch(b) => {
+                    for o in b {
+                        match o {
+                            BatchOp::Add(d) => live.push(d.clone()),
+                            BatchOp::Delete(k) => live.retain(|d| !DelSpec::Key(*k).matches(d)),
+                        }
+                    }
+                }
             }
             pos[t] += 1;
             if let Some(r) = rec(threads, pos, live, seen, observed, f) {
